@@ -17,6 +17,10 @@ impl FromStrHex for BigUint {
         if val.starts_with("0x") {
             val = &val[2..];
         }
+        // parse_bytes also accepts a sign and '_' separators; a recorded value has hex digits only.
+        if val.is_empty() || !val.bytes().all(|b| b.is_ascii_hexdigit()) {
+            return None;
+        }
         BigUint::parse_bytes(val.as_bytes(), 16)
     }
 }
